@@ -25,6 +25,8 @@ CHECKS["C11"] = ("Lean 4 proof over R of a carrier-generic executable model + co
     "Machine-checked (Lean 4, R) for the executable model of Fatigue.damage / WoehlerCurve.cycles / solidity.haibach / Miner lifetime multiples / gassner_cycles / gassner / effective_damage_sum: damage sum additive over appended collectives, proportional to counts, permutation invariant; original <= Haibach <= elementary class by class for k_1 >= 1; applying a collective for its Miner-elementary resp. Miner-Haibach Gassner cycles gives damage exactly 1 for every collective with non-negative data and at least one loaded occupied class, any empty classes, any position of SD, any load scale; effective damage sum in [0.3, 1]. The model is the repaired miner.py (fix 110dd2d); the old behaviour is refuted in the kernel. Tied to the code by a differential run (relative tolerance 1e-11) over range / range-mean / from-to histograms and LoadCollective frames through the registered accessors, including all occupancy patterns x SD positions of small histograms.", "5 C11")
 CHECKS["C16"] = ("machine-checked proof (Lean 4 / Mathlib) over source-translated definitions + differential correspondence + direct property oracle",
     "25 Lean theorems over R about definitions regenerated from the current source on every run by an ast->Lean translator (RO strain odd / strictly increasing / bijective with exact inverse, compliance = derivative everywhere incl. 0, modulus = reciprocal = derivative of the inverse, Masing doubling and inverse, hysteresis reversal point, Hooke 1D/plane stress/plane strain/3D round trips and plane<->3D agreement, G and K, true stress/strain inverses); the translator is validated each run by differential comparison of the generated definitions at Float with the real functions (bit-exact for + - x /, 1e-12 relative for pow/log); convergence of the Newton inverse is not proved, it is measured against bisection within the solver's tolerance.", "5 C16")
+CHECKS["C13"] = ("Lean 4 proofs about an executable relational-join model + differential correspondence with the real Broadcaster + direct oracle (look-up relation, identical index, inputs unchanged, consumers)",
+    "Proof level for a relational model of the Broadcaster: for every pair of tables the code accepts, the two returned tables have the same level names and the same key list; every returned row carries the payload the original holds at the key restricted to the original's levels, or NaN if absent; every row stems from operand rows that agree on the shared levels; every agreeing pair is present; disjoint names give |obj| x |prm| rows. The code accepts every pair of the quantifier except the open finding contained-multi-shared-missing-key (broadcast_total_partial). The theorems are close to the model's definition; the decisive tie to the pandas-based code is this run's correspondence (exhaustive small scopes plus seeded layouts). 'Operands unchanged' and the consumer clauses (allowable cycles, Haigh diagram) are tested on the real code, not proved.", "5 C13")
 PENDING = {}
 def main():
     props = [json.loads(l) for l in open(os.path.join(HERE, "properties.jsonl"))]
